@@ -1,7 +1,7 @@
 (* Property C06: the TrackAnnotator lookups and the fresh-id counters agree with the graph.
    Preservation of W_book (and of W_dict where cheap) by the seven basic actions of
    Model/Edit.v, the three queries of solution_tracks.py, and the fresh-id theorems.
-   Axiom free. *)
+   No axioms are used. *)
 From Coq Require Import ZArith List Bool Lia Permutation Sorted.
 From FT Require Import Base.Dict Model.Edit Proofs.DictLemmas Proofs.EditInv Proofs.BookLemmas.
 Import ListNotations.
@@ -1381,4 +1381,43 @@ Proof.
     + intros u v Hu Hv. rewrite <- Hu. symmetry. apply Hl1. now apply edge_successors.
     + intros c [<-|[]]. reflexivity.
     + exact Eb.
+Qed.
+
+(* ================================================================== *)
+(* 10. the statements restated in Props/C06.v                          *)
+(* ================================================================== *)
+Theorem edge_attr_seg_W_book st :
+  W_book st ->
+  (forall u v a b st', do_add_edge st u v a = Ok b st' -> W_book st') /\
+  (forall u v b st', do_del_edge st u v = Ok b st' -> W_book st') /\
+  (forall n new b st', do_upd_attrs st n new = Ok b st' -> W_book st') /\
+  (forall n px added b st', rp_disjoint st -> do_upd_seg st n px added = Ok b st' -> W_book st').
+Proof.
+  intros W. split; [|split; [|split]].
+  - intros u v a b st' H. eapply add_edge_W_book; eauto.
+  - intros u v b st' H. eapply del_edge_W_book; eauto.
+  - intros n new b st' H. eapply upd_attrs_W_book; eauto.
+  - intros n px added b st' Hrp H. eapply upd_seg_W_book; eauto.
+Qed.
+
+Theorem basic_W_dict st :
+  cfg_ok st -> W_dict st ->
+  (forall n a px b st' t0 T L, ~ is_node st n -> rp_disjoint st -> NoDup (keys a) ->
+       lookup KTime a = Some (VZ t0) -> lookup KTrack a = Some (VZ T) -> lookup KLin a = Some (VZ L) ->
+       do_add_node st n a px = Ok b st' -> W_dict st') /\
+  (forall n px b st', do_del_node st n px = Ok b st' -> W_dict st') /\
+  (forall u v a b st', do_add_edge st u v a = Ok b st' -> W_dict st') /\
+  (forall u v b st', do_del_edge st u v = Ok b st' -> W_dict st') /\
+  (forall n new b st', do_upd_attrs st n new = Ok b st' -> W_dict st') /\
+  (forall n px added b st', rp_disjoint st -> do_upd_seg st n px added = Ok b st' -> W_dict st') /\
+  (forall start newT newL b st', do_upd_track st start newT newL = Ok b st' -> W_dict st').
+Proof.
+  intros C W. split; [|split; [|split; [|split; [|split; [|split]]]]].
+  - intros n a px b st' t0 T L H1 H2 H3 H4 H5 H6 H. eapply add_node_W_dict; eauto.
+  - intros n px b st' H. eapply del_node_W_dict; eauto.
+  - intros u v a b st' H. eapply add_edge_W_dict; eauto.
+  - intros u v b st' H. eapply del_edge_W_dict; eauto.
+  - intros n new b st' H. eapply upd_attrs_W_dict; eauto.
+  - intros n px added b st' Hrp H. eapply upd_seg_W_dict; eauto.
+  - intros start newT newL b st' H. eapply upd_track_W_dict; eauto.
 Qed.
